@@ -26,7 +26,7 @@ kinds K1–K3 need:
 
 import ast
 
-from .astutil import calls_in, call_attr, call_name, handler_is_catch_all, norm, short, walk_own
+from .astutil import calls_in, call_attr, dotted, call_name, handler_is_catch_all, norm, short, walk_own
 from .index import AnalysisError
 
 
@@ -518,11 +518,16 @@ class Builder:
             guarded=ctx.guarded or self.with_is_scope,
         )
         out = self._with(s, idx + 1, [(enter.id, "")], inner)
+        after = []
         if out:
             x = g._new("with_exit", item, label="normal")
             self._connect(out, x.id)
-            return [(x.id, "")]
-        return []
+            after.append((x.id, ""))
+        # contextlib.suppress(...) swallows the listed exceptions: execution also continues after the with
+        ce = item.context_expr
+        if isinstance(ce, ast.Call) and (dotted(ce.func) or "").split(".")[-1] == "suppress" and "exc" in copies:
+            after.append((copies["exc"], "S"))
+        return after
 
     # -- try ----------------------------------------------------------------
     def _try(self, s, dangling, ctx):
